@@ -133,9 +133,22 @@ func (r *funcRun) execBlock(st *State, b *ssa.BasicBlock, pred *ssa.BasicBlock) 
 		}
 		if backEdge {
 			// measure at loop head was saved in names
+			// ghost updates are evaluated with the values at the end of the iteration
+			newGhosts := map[string]tval{}
+			for _, g := range ls.Ghosts {
+				if g.Upd != "" {
+					newGhosts[g.Name] = r.ghostUpdate(st, g)
+				}
+			}
 			bind(st, phiVals)
+			for n, tv := range newGhosts {
+				st.names[n] = tv.V
+				st.ntypes[n] = tv.T
+			}
 			for k, inv := range ls.Invariants {
 				r.emitGoal(st, "inv-preserved", fmt.Sprintf("=loop%d.%s", ord, clauseID(inv, k)), inv.Props, inv.Expr, nil, r.old, r.baseVars(st), inv.Src)
+				// cut: later invariants may use the earlier ones (each was just proved on this path)
+				st.assume(r.evalBool(st, inv.Expr, r.old, nil, inv.Src))
 			}
 			for k, d := range ls.Decreases {
 				m := r.evalInt(st, d.Expr, r.old, d.Src)
@@ -154,8 +167,19 @@ func (r *funcRun) execBlock(st *State, b *ssa.BasicBlock, pred *ssa.BasicBlock) 
 			st.names[l.Name] = tv.V
 			st.ntypes[l.Name] = tv.T
 		}
+		for _, g := range ls.Ghosts {
+			c := &evalCtx{r: r, st: st, old: r.old, vars: r.baseVars(st), src: g.Src}
+			t := c.parseType(g.Type)
+			if g.Init != "" {
+				tv := c.evalStr(g.Init)
+				st.names[g.Name], st.ntypes[g.Name] = tv.V, t
+			} else {
+				st.names[g.Name], st.ntypes[g.Name] = r.v.freshValue(st, "lg_"+g.Name, t), t
+			}
+		}
 		for k, inv := range ls.Invariants {
 			r.emitGoal(st, "inv-entry", fmt.Sprintf("=loop%d.%s", ord, clauseID(inv, k)), inv.Props, inv.Expr, nil, r.old, r.baseVars(st), inv.Src)
+			st.assume(r.evalBool(st, inv.Expr, r.old, nil, inv.Src))
 		}
 		// havoc
 		for _, c := range r.loopWrites(b) {
@@ -167,6 +191,9 @@ func (r *funcRun) execBlock(st *State, b *ssa.BasicBlock, pred *ssa.BasicBlock) 
 			hv[i] = r.v.freshValue(st, "phi_"+p.Comment+"_"+p.Name(), p.Type())
 		}
 		bind(st, hv)
+		for _, g := range ls.Ghosts {
+			st.names[g.Name] = r.v.freshValue(st, "lg_"+g.Name, st.ntypes[g.Name])
+		}
 		for _, inv := range ls.Invariants {
 			st.assume(r.evalBool(st, inv.Expr, r.old, nil, inv.Src))
 		}
@@ -230,6 +257,28 @@ func (r *funcRun) seedValue(st *State, val ssa.Value) {
 		}
 	}
 	rec(v, val.Type())
+}
+
+// ghostUpdate computes the new value of a loop ghost at a back edge.
+func (r *funcRun) ghostUpdate(st *State, g *LoopGhost) tval {
+	c := &evalCtx{r: r, st: st, old: r.old, vars: r.baseVars(st), src: g.Src}
+	t := st.ntypes[g.Name]
+	if g.Var == "" {
+		tv := c.evalStr(g.Upd)
+		return tval{tv.V, t}
+	}
+	mt, ok := t.(*types.Map)
+	if !ok || !r.v.ghostArrays[t] {
+		c.fail("loop ghost %s is not a ghost array", g.Name)
+	}
+	ks, _ := r.v.leafSort(mt.Key())
+	as, _ := r.v.leafSort(t)
+	A := st.freshConst("lg_"+g.Name, as)
+	*st.fresh++
+	q := fmt.Sprintf("q_%s%d", g.Var, *st.fresh)
+	body := c.bind(g.Var, tval{Term{S: q, Sort: ks}, mt.Key()}).evalStr(g.Upd)
+	st.cmds = append(st.cmds, fmt.Sprintf("(assert (forall ((%s %s)) (! (= (select %s %s) %s) :pattern ((select %s %s)))))", q, string(ks), A.S, q, body.V.(Term).S, A.S, q))
+	return tval{A, t}
 }
 
 func clauseID(c Clause, k int) string {
@@ -491,7 +540,7 @@ func (r *funcRun) step(st *State, in ssa.Instruction, b *ssa.BasicBlock) ([]work
 			s := r.term(st, x.X)
 			r.emit(st, "index-in-range", "", []string{"C19"}, And(Le(IntLit(0), idx), Lt(idx, SlLen(s))), r.pos(x))
 			st.assume(And(Le(IntLit(0), idx), Lt(idx, SlLen(s))))
-			st.regs[x.Name()] = r.v.elemLoc(SlArr(s), Add(SlOff(s), idx), u.Elem())
+			st.regs[x.Name()] = r.v.elemLoc(SlArr(s), At(s, idx), u.Elem())
 		case *types.Pointer:
 			at := u.Elem().Underlying().(*types.Array)
 			base := r.term(st, x.X)
@@ -548,6 +597,7 @@ func (r *funcRun) step(st *State, in ssa.Instruction, b *ssa.BasicBlock) ([]work
 		st.assume(Not(Ident(m, IntLit(0))))
 		mi := r.v.mapInfo(x.Map.Type().Underlying().(*types.Map))
 		k := r.term(st, x.Key)
+		st.seedKey(k)
 		d := st.comp(mi.dom, mi.domSig)
 		r.locksetComp(st, mi.dom, true, x)
 		r.mapCardUpdate(st, mi, m, k, true, d)
@@ -740,6 +790,7 @@ func (r *funcRun) lookup(st *State, x *ssa.Lookup) {
 	if mt, ok := x.X.Type().Underlying().(*types.Map); ok {
 		m := r.term(st, x.X)
 		k := r.term(st, x.Index)
+		st.seedKey(k)
 		mi := r.v.mapInfo(mt)
 		r.locksetComp(st, mi.dom, false, x)
 		has := And(Not(Ident(m, IntLit(0))), r.v.mapHas(st, nil, mi, m, k))
@@ -886,6 +937,7 @@ func (r *funcRun) nextOp(st *State, x *ssa.Next) {
 	ok := st.freshConst("next_ok", SBool)
 	kk := st.freshConst("next_k", mi.ksort)
 	st.assume(r.v.typeInv(st, kk, mt.Key()))
+	st.seedKey(kk)
 	isNil := Ident(m, IntLit(0))
 	// ok => kk in dom, unvisited ; !ok => every key of dom visited
 	st.assume(Imp(ok, And(Not(isNil), mk(SBool, "(select (select %s %s) %s)", dom, m.S, kk.S), Not(mk(SBool, "(select (select %s %s) %s)", vis, it.S, kk.S)))))
